@@ -34,6 +34,7 @@ def run(ctx):
     c16_4(ctx)
     c16_2b(ctx)
     c16_4b(ctx)
+    c16_1b(ctx)
 
 
 def c16_1(ctx):
@@ -318,3 +319,33 @@ def c16_4b(ctx):
         ctx.ob(R, "sk-add:" + p.split(" as ")[0].strip("<")[-40:] + ("/assign" if "AddAssign" in p else ""), ok,
                "secret-key addition = blst_sk_add_n_check(out, &self.0, &rhs.0), result always taken, no branch", found=detail[:300], where=fb.fns[p].sp)
     ctx.floor(R, "secret-key addition operator forms", n, 3)
+
+
+def c16_1b(ctx):
+    """'checked parsing rejects every encoding that is not a point of the prime-order subgroup': the only production callers of
+    the unchecked point decoders are the checked decoder itself (which gates on is_valid, C16.1) and Streamable::parse (which
+    uses it only under TRUSTED, C16.1 / C14.5).  Every other way bytes become a key -- serde Deserialize, JSON, hex helpers,
+    condition parsing -- must therefore go through from_bytes."""
+    R = "C16.1"
+    fb = ctx.fb
+    n = 0
+    for ty, mod_ in (("PublicKey", "public_key"), ("Signature", "signature")):
+        base = BL + mod_ + "::" + ty
+        callers = sorted(fb.callers(base + "::from_bytes_unchecked"))
+        allowed = {base + "::from_bytes", "<%s as chia_traits::streamable::Streamable>::parse" % base}
+        extra = [c for c in callers if c not in allowed]
+        n += len(callers)
+        ctx.ob(R, "unchecked-callers:" + ty, not extra and bool(callers),
+               "%s::from_bytes_unchecked is called only by the checked decoder and by Streamable::parse" % ty, found=extra or None)
+    ctx.floor(R, "callers of the unchecked point decoders", n, 4)
+    # the add-family uses the projective primitive on projective operands: the *_affine variants take an affine second operand and
+    # would silently treat (x, y, z) as affine
+    bad = []
+    for p, f in fb.fns.items():
+        if not (p.startswith("chia_bls::") or "chia_bls::" in p.split(" as ")[0]):
+            continue
+        for c in f.e.get("calls", []):
+            d = (c.get("def") or "").split("::")[-1]
+            if d in ("blst_p1_add_or_double_affine", "blst_p2_add_or_double_affine"):
+                bad.append("%s calls %s" % (p, d))
+    ctx.ob("C16.4", "no-mixed-addition", not bad, "point addition never uses the mixed (affine second operand) formula on projective points", found=bad or None)
